@@ -11,7 +11,7 @@ CONFIG = {
         "util": [("agreement", "agreement")],
         "search_tier": "quick",   # violation search after a proof / correspondence break: more seeds of the quick mix
         "env": {"quick": {"VERIF_C41_BASES": 1, "VERIF_C41_LAX": 4, "VERIF_C41_BUDGET": 20000},
-                "thorough": {"VERIF_C41_BASES": 12, "VERIF_C41_LAX": 8, "VERIF_C41_BUDGET": 400000}},
+                "thorough": {"VERIF_C41_BASES": 5, "VERIF_C41_LAX": 8, "VERIF_C41_BUDGET": 60000, "VERIF_C41_SITES": 30}},
         "timeout": {"quick": 900, "thorough": 3000},
     }],
     "rule": "every input goes through the real protocol.Decode into a fresh object of each of the 54 root types (own recover around it: an "
